@@ -119,6 +119,9 @@ Clauses(T, j, vm) ==
           THEN {"find_files_exact"} ELSE {})
     \cup (IF e.op = "merge" /\ e.ok /\ e.merged_vw # e.vw THEN {"merged_view_eq_source_view"} ELSE {})
     \cup (IF e.op = "merge" /\ e.meta_before # e.meta_after THEN {"merge_leaves_source_object_unchanged"} ELSE {})
+    \* what the open record object reports about itself (files in patch order, user blocks, uuid, manifest)
+    \* is what the containers say when read from their bytes
+    \cup (IF e.hmis # <<>> THEN {"handle_matches_disk"} ELSE {})
 
 Learn(e, vm) ==
     IF e.op \in ProtocolOps /\ e.h.open /\ ~e.h.wr
